@@ -6,6 +6,7 @@ Import ListNotations.
 Check (visitors_cover : forall k, can_contain k = true -> marker_par k = true /\ marker_seq k = true).
 Check (visitors_sound : forall k, marker_par k = true \/ marker_seq k = true -> can_contain k = true).
 Check (roots_cover : forall s, In s marked_root_sets).
+Check (frame_handlers_are_roots : frame_handlers_rooted = true).
 Check (recycler_restores : recycler_restores_marks = true).
 Check (mark_complete : forall h r h' nb nv,
   mark marker_par (reset_marks h) r = Ok (h', nb, nv) ->
@@ -53,6 +54,7 @@ Check (recycle_old_refuted : exists fill st,
 Print Assumptions visitors_cover.
 Print Assumptions visitors_sound.
 Print Assumptions roots_cover.
+Print Assumptions frame_handlers_are_roots.
 Print Assumptions recycler_restores.
 Print Assumptions mark_complete.
 Print Assumptions mark_keeps_contents.
